@@ -149,7 +149,7 @@ CLAIMED = {
         "file is a canonical pointer; no flags = both checks; --objects / --pointers alone characterised; the objects named are exactly the missing and corrupt ones (no intact one is ever named); the pointers named are exactly the non-canonical and non-pointer files; only corrupt objects are moved, "
         "every corrupt referenced one is moved by a repairing run, nothing is moved under --dry-run or --pointers. Scenarios with the real binary: plumbing-built histories with every tracked path as canonical / non-canonical pointer / raw content / empty pointer, a staged pointer, five damage kinds on local objects, "
         "revisions none / commit / A..B, flags, --dry-run, fetchexclude; expected reports from plumbing + `git check-attr`, a snapshot of .git/lfs for moves and untouched objects; the set-level outcome (exit, named objects, named pointers, moved) is compared with the model.",
-   note=TB + "Which commits/blobs a revision argument selects is judged by the scenario oracle (plumbing), not modelled in Lean; the attribute reading of fsck --pointers is only exercised with root-level .gitattributes except for the D21 variant (known finding); lfs.fetchexclude excuses objects only, tracked paths holding raw content are reported regardless (the property's literal reading, which the code follows). git's clean filter may add objects while fsck runs diff-index (racy entries): additions are tolerated, removals and modifications are not.",
+   note=TB + "Which commits/blobs a revision argument selects is judged by the scenario oracle (plumbing), not modelled in Lean; the attribute reading of fsck --pointers is modelled per path (AttrFilter, equal to Git's last-match rule since D21 was repaired) and exercised with root-level and nested .gitattributes files; pattern matching itself is wildmatch's; lfs.fetchexclude excuses objects only, tracked paths holding raw content are reported regardless (the property's literal reading, which the code follows). git's clean filter may add objects while fsck runs diff-index (racy entries): additions are tolerated, removals and modifications are not.",
    technique="Lean 4 proof (list-level characterisation of the fsck outcome by case analysis) + scenario correspondence with a plumbing/check-attr oracle and .git/lfs snapshots",
    ref="§5 C13"),
  "C12": dict(
